@@ -32,3 +32,34 @@ Theorem C16_worker_handoff_faithful : forall n s, MirrorHandoff.hreach (MirrorHa
   Forall (fun e => snd e = fst e) (MirrorHandoff.emitted s).
 Proof. exact MirrorHandoffProofs.mirror_handoff_faithful. Qed.
 Print Assumptions C16_worker_handoff_faithful.
+
+(* the DISPATCHER between the workers' mirror queue and the mirror workers (regenerated from the source on every run, Gen/Dispatch.v):
+   its endless loop takes a message and sends it to one of two queues by the family of the exporter's address, To4() != nil, and
+   the mirror workers are started on the queue of the target's family; nothing else happens in either loop (no index into the
+   address, no computed worker number, no drop) *)
+From VF Require Model.MirrorDispatch Proofs.MirrorDispatchProofs Gen.Dispatch.
+Theorem C16_dispatcher_is_the_modelled_one : forall p st lp, In (p, st, lp) Gen.Dispatch.dispatchers ->
+  st = ["if dst.To4() != nil then ch4 else ch6"]%string /\ lp = ["recv"; "if msg.raddr.IP.To4() != nil then ch4 else ch6"]%string.
+Proof.
+  intros p st lp Hin. unfold Gen.Dispatch.dispatchers in Hin. cbn [In] in Hin.
+  repeat (destruct Hin as [Hin|Hin]; [injection Hin as _ <- <-; split; reflexivity|]). contradiction.
+Qed.
+Print Assumptions C16_dispatcher_is_the_modelled_one.
+
+(* that dispatcher loses and duplicates nothing, keeps the arrival order within a family, and is TOTAL: exporter addresses of 4 octets
+   (an AF_INET listener), IPv4-mapped ones of 16 octets, and addresses of any other length are classified, never indexed into *)
+Theorem C16_dispatch_loses_nothing : forall (M : Type) (addr_of : M -> bytes) (msgs : list M),
+  (length (fst (MirrorDispatch.dispatch addr_of msgs)) + length (snd (MirrorDispatch.dispatch addr_of msgs)) = length msgs)%nat.
+Proof. exact @MirrorDispatchProofs.dispatch_lengths. Qed.
+Print Assumptions C16_dispatch_loses_nothing.
+
+Theorem C16_served_queue_is_the_family_in_arrival_order : forall (M : Type) (addr_of : M -> bytes) dst (msgs : list M),
+  MirrorDispatch.served dst (MirrorDispatch.dispatch addr_of msgs) =
+  filter (fun m => Bool.eqb (MirrorDispatch.is4 (addr_of m)) (MirrorDispatch.is4 dst)) msgs.
+Proof. exact @MirrorDispatchProofs.served_is_the_family_in_order. Qed.
+Print Assumptions C16_served_queue_is_the_family_in_arrival_order.
+
+Theorem C16_both_forms_of_an_ipv4_exporter_are_ipv4 : forall a, length a = 4%nat ->
+  MirrorDispatch.is4 a = true /\ MirrorDispatch.is4 (repeat 0 10 ++ [255; 255] ++ a) = true.
+Proof. intros a H. split; [apply MirrorDispatchProofs.is4_four|apply MirrorDispatchProofs.is4_mapped]; exact H. Qed.
+Print Assumptions C16_both_forms_of_an_ipv4_exporter_are_ipv4.
